@@ -105,13 +105,13 @@ var (
 	tdMapAny   = &TypeDesc{Kind: TKMap, Elem: tdAny}
 )
 
-func tdInt(bits int) *TypeDesc           { return &TypeDesc{Kind: TKInt, Bits: bits} }
-func tdUint(bits int) *TypeDesc          { return &TypeDesc{Kind: TKUint, Bits: bits} }
-func tdSlice(e *TypeDesc) *TypeDesc      { return &TypeDesc{Kind: TKSlice, Elem: e} }
-func tdArray(n int, e *TypeDesc) *TypeDesc { return &TypeDesc{Kind: TKArray, N: n, Elem: e} }
-func tdMap(e *TypeDesc) *TypeDesc        { return &TypeDesc{Kind: TKMap, Elem: e} }
-func tdPtr(e *TypeDesc) *TypeDesc        { return &TypeDesc{Kind: TKPtr, Elem: e} }
-func tdStruct(fs ...FieldDesc) *TypeDesc { return &TypeDesc{Kind: TKStruct, Fields: fs} }
+func tdInt(bits int) *TypeDesc               { return &TypeDesc{Kind: TKInt, Bits: bits} }
+func tdUint(bits int) *TypeDesc              { return &TypeDesc{Kind: TKUint, Bits: bits} }
+func tdSlice(e *TypeDesc) *TypeDesc          { return &TypeDesc{Kind: TKSlice, Elem: e} }
+func tdArray(n int, e *TypeDesc) *TypeDesc   { return &TypeDesc{Kind: TKArray, N: n, Elem: e} }
+func tdMap(e *TypeDesc) *TypeDesc            { return &TypeDesc{Kind: TKMap, Elem: e} }
+func tdPtr(e *TypeDesc) *TypeDesc            { return &TypeDesc{Kind: TKPtr, Elem: e} }
+func tdStruct(fs ...FieldDesc) *TypeDesc     { return &TypeDesc{Kind: TKStruct, Fields: fs} }
 func fld(name string, t *TypeDesc) FieldDesc { return FieldDesc{Name: name, Type: t} }
 
 var (
